@@ -1035,3 +1035,82 @@ example : DT.byteSize "\x1d1kb".toList = .error .valueError := by decide
 example : DT.timedelta "1\x1ch".toList = .error .valueError := by decide
 
 end ZCV.Props.C09
+
+/-!
+## `timedelta`, for the code as it is now
+
+`Gen.Code.timedelta` is the translation of the Python source of `ZConfig.datatypes.timedelta`.  Two things stay PARAMETERS
+(trusted, see `ZCV/Gen/CodeDatatypes.lean`): which texts `float()` accepts — instantiated here with the model's acceptance
+grammar `DT.floatOk` (`C09_float_*`), never unfolded — and the `datetime.timedelta` constructor `ctor`, whose range verdict
+(NaN, infinity, more than 999999999 days) is the model's parameter `fits`.  Values are symbolic: `float(lit)`.
+-/
+namespace ZCV.Props.C09
+open ZCV ZCV.CodeEq
+
+/-- generated code = model, any constructor: the model's loop over the parts, then the constructor on the collected
+    arguments, its `OverflowError` turned into `ValueError` -/
+theorem C09_code_timedelta_eq (ctor : Py.Num → Py.Num → Py.Num → Py.Num → Py.Num → Except Py.PyExc Py.Timedelta) (s : Str) :
+    Gen.Code.timedelta DT.floatOk ctor s =
+      match DT.timedelta s with
+      | .ok v => tdFinish ctor v
+      | .error e => .error (embedErr e) := code_timedelta_eq ctor s
+
+/-- re-tagging the constructor arguments loses nothing -/
+theorem C09_code_embedTD_injective (a b : DT.TimedeltaVal) (h : embedTD a = embedTD b) : a = b := embedTD_injective a b h
+
+/-- generated code = `DT.timedeltaChecked`, for every constructor that behaves like `datetime.timedelta` (returns the
+    object for its arguments, or raises `OverflowError` / `ValueError`): its verdict is the model's `fits` -/
+theorem C09_code_timedeltaChecked_eq (ctor : Py.Num → Py.Num → Py.Num → Py.Num → Py.Num → Except Py.PyExc Py.Timedelta)
+    (hc : CtorLike ctor) (s : Str) :
+    Gen.Code.timedelta DT.floatOk ctor s = embed ((DT.timedeltaChecked (ctorFits ctor) s).map embedTD) :=
+  code_timedeltaChecked_eq ctor hc s
+
+/-- a constructor accepting everything, and one refusing infinite weeks, are `CtorLike` -/
+example : CtorLike (fun w d h m s => .ok ⟨w, d, h, m, s⟩) := fun _ _ _ _ _ => Or.inl rfl
+example : CtorLike (fun w d h m s => if w = .float ['i', 'n', 'f'] then .error .OverflowError else .ok ⟨w, d, h, m, s⟩) := by
+  intro w d h m s
+  by_cases hw : w = .float ['i', 'n', 'f']
+  · exact Or.inr (Or.inl (by simp [hw]))
+  · exact Or.inl (by simp [hw])
+
+/-- what the code does with the outcome `r` of the loop over the parts -/
+def tdOutcome (ctor : Py.Num → Py.Num → Py.Num → Py.Num → Py.Num → Except Py.PyExc Py.Timedelta) :
+    Except ConvErr DT.TimedeltaVal → Except Py.PyExc Py.Timedelta
+  | .ok v => tdFinish ctor v
+  | .error e => .error (embedErr e)
+
+/-- the documented shape, for the code: if the text is related to the outcome `r` by the declarative `IsTimedelta`, the
+    code returns the constructor's answer on `r`'s amounts, or raises `r`'s exception -/
+theorem C09_code_timedelta_spec (ctor : Py.Num → Py.Num → Py.Num → Py.Num → Py.Num → Except Py.PyExc Py.Timedelta) (s : Str)
+    (r : Except ConvErr DT.TimedeltaVal) (h : DTSpec.IsTimedelta s r) :
+    Gen.Code.timedelta DT.floatOk ctor s = tdOutcome ctor r := by
+  rw [code_timedelta_eq, (C09_timedelta_spec s r).mpr h]; rfl
+example : DTSpec.IsTimedelta [] (.ok {}) := (C09_timedelta_spec _ _).mp rfl
+
+/-- the code raises `TypeError` exactly for an unknown unit letter after a float literal (all earlier parts being good) -/
+theorem C09_code_timedelta_unknown_unit_is_TypeError
+    (ctor : Py.Num → Py.Num → Py.Num → Py.Num → Py.Num → Except Py.PyExc Py.Timedelta) (hc : CtorLike ctor) (s : Str) :
+    Gen.Code.timedelta DT.floatOk ctor s = .error .TypeError ↔
+      ∃ (good : List DTSpec.TdPart) (lit : Str) (u : Char) (rest : List Str),
+        DTSpec.Words s (good.map DTSpec.tdText ++ (lit ++ [u]) :: rest) ∧ (∀ p ∈ good, DTSpec.TdGood p) ∧
+        DTSpec.FloatLit lit ∧ u ∉ DTSpec.tdUnits := by
+  rw [← C09_timedelta_unknown_unit_is_TypeError, code_timedelta_eq]
+  cases hd : DT.timedelta s with
+  | error e => cases e <;> simp [embedErr]
+  | ok v =>
+    simp only [tdFinish, reduceCtorEq, iff_false]
+    rcases hc (tdNum v.weeks) (tdNum v.days) (tdNum v.hours) (tdNum v.minutes) (tdNum v.seconds) with h | h | h <;>
+      simp [h]
+
+/-- totality of the code: a value, `ValueError` or `TypeError` — nothing else -/
+theorem C09_code_timedelta_total (ctor : Py.Num → Py.Num → Py.Num → Py.Num → Py.Num → Except Py.PyExc Py.Timedelta)
+    (hc : CtorLike ctor) (s : Str) :
+    (∃ v, DT.timedelta s = .ok v ∧ Gen.Code.timedelta DT.floatOk ctor s = .ok (embedTD v)) ∨
+      Gen.Code.timedelta DT.floatOk ctor s = .error .ValueError ∨ Gen.Code.timedelta DT.floatOk ctor s = .error .TypeError := by
+  rw [code_timedeltaChecked_eq ctor hc]
+  rcases C09_timedelta_checked_total (ctorFits ctor) s with ⟨v, h1, h2, _⟩ | h | h
+  · exact Or.inl ⟨v, h2, by rw [h1]; rfl⟩
+  · exact Or.inr (Or.inl (by rw [h]; rfl))
+  · exact Or.inr (Or.inr (by rw [h]; rfl))
+
+end ZCV.Props.C09
